@@ -13,6 +13,20 @@ CLAIMED = {
             "replay file. Exploration, not proof: absence is claimed only for the shapes and value patterns counted in the evidence.",
             "Trusted: the reference loops in /verif/engine/oracle.hpp and props/C11.cpp; clang ASan/UBSan; system libm.",
             "DESIGN.md section 5, C11"),
+    "C10": ("property-based testing (rapidcheck, forked ASan/UBSan children) against a long-double reference of the seven "
+            "documented options with explicit forward error bounds; fit path, apply path, new rows, MISSING cells, tensor blocks",
+            "Generated-input search over matrices/tensors inside the stated domain (column scale >= 0.02 or exactly 0, up to 20 % "
+            "missing cells, all options); every stored statistic and every observed transformed cell is compared with the reference. "
+            "Exploration of the counted cases only.",
+            "Trusted: reference statistics in /verif/engine/oracle.hpp (ref_preprocess) and the error-bound derivation in props/C10.cpp.",
+            "DESIGN.md section 5, C10"),
+    "C12": ("property-based testing (rapidcheck, forked ASan/UBSan children): defining equations (A*Ainv=I, Penrose conditions, "
+            "A v = lambda v, U S Vt = A) and differential comparison with complete-pivoting / Householder / Jacobi oracles in long double",
+            "Generated-input search over structured families (general with known spectrum, permutation, permuted triangular with singular "
+            "leading minors, triangular, diagonal, SPD, indefinite; rectangular tall/wide) with condition number measured by the oracle; "
+            "tolerances proportional to n*eps*kappa (kappa^2 for normal-equation routines). Exploration of the counted cases only.",
+            "Trusted: oracle solvers in /verif/engine/oracle.hpp; system LAPACK is part of the tested code path, not of the oracle.",
+            "DESIGN.md section 5, C12"),
 }
 
 PENDING_REASON = "harness not built yet in this round (work in progress; see DESIGN.md section 5 for the planned check)"
